@@ -489,8 +489,9 @@ class The(ResultQuantifier[T]):
     def evaluate(self) -> TypingUnion[Iterable[T], T, UnificationDict]:
         completed = False
         try:
-            result = self._evaluate_()
-            result = self._process_result_(result)
+            with symbolic_mode(mode=None):
+                result = self._evaluate_()
+                result = self._process_result_(result)
             completed = True
             return result
         finally:
